@@ -765,6 +765,9 @@ class SqliteCaseReader(BaseCaseReader):
                         cases = self._list_cases_recurse_flat(source, out_stream=None)
                     else:
                         return self._list_cases_recurse_nested(source)
+                else:
+                    self.get_case(source)  # raises RuntimeError if the case is not found
+                    cases = [source]
             else:
                 raise RuntimeError('Source not found: %s' % source)
 
